@@ -21,13 +21,15 @@ RLIMIT_THOROUGH = 200_000_000
 def variants(types):
     """expand alternatives: {'a': ['int','real'], 'b': 'int'} -> [({'a':'int','b':'int'}, 'a=int'), ...]"""
     keys = [k for k, v in types.items() if isinstance(v, (list, tuple))]
+    def _nm(c):
+        return getattr(c, "label", None) or (c if isinstance(c, str) else getattr(c, "__name__", "builder"))
     if not keys:
         return [(dict(types), "")]
     out = []
     for combo in itertools.product(*[types[k] for k in keys]):
         t = dict(types)
         t.update(dict(zip(keys, combo)))
-        out.append((t, ",".join(f"{k}={c}" for k, c in zip(keys, combo))))
+        out.append((t, ",".join(f"{k}={_nm(c)}" for k, c in zip(keys, combo))))
     return out
 
 
